@@ -7,8 +7,6 @@ compared with reference values computed from the case description (DESIGN sectio
 """
 import copy
 import itertools
-import math
-from fractions import Fraction as F
 
 import numpy as np
 
@@ -60,10 +58,6 @@ TOL_DUR_ABS = 1e-5
 TOL_DUR_REL = 1e-5
 TOL_MAP = 1e-5
 DUR_FLOOR = 60 / 200 * 0.25
-
-
-def _f4(x):
-    return float(np.float32(x))
 
 
 def _close_f4(obs, ref, scale=None, ulps=4):
@@ -548,7 +542,7 @@ def spaces(tier, seed):
                         "voice 2 in {none, (pos 1,len 2), (pos 0,len 4)}; grace note none or before any sounding event; pickup "
                         "{no, 1 unit}; <=5 notes; meter {4/4, 6/8, 2/4 triplet grid}, tempo pattern, chord spread, duration style, "
                         "alignment order and performance order cycled with the index; all-match alignment"))
-        B = 6
+        B = 4
         sp.append(Space("structures-block",
                         _block(gen_structures(4, 3, V2_ALL, 6, skip=_core_key), B, seed % B), True,
                         "block %d of %d of the remaining scores of the thorough family (voice 2 at every position, length {1,2,4}, "
@@ -560,7 +554,7 @@ def spaces(tier, seed):
                         "10 scores x 2 performances x ALL single changes (each note: deletion, deletion+insertion, ornament-only; "
                         "extra note early/mid/late as insertion at the end or front; ornament on each note; match with unknown score "
                         "id; match with unknown performance id) x alignment order {forward, reversed, odd-even}"))
-        BW = 16
+        BW = 10
         sp.append(Space("alignments-wide-block", _block(gen_alignments_wide(5), BW, seed % BW), True,
                         "block %d of %d of: every score of structures-core x one performance x ALL single alignment changes "
                         "(alignment order cycled)" % (seed % BW, BW)))
